@@ -138,6 +138,17 @@ CLAIMED['C14'] = (
     'numpy.linalg.solve modelled as the exact rational inverse of the concrete collocation matrix; area/resolution concrete per '
     'job; 3D history independence only in the thorough tier; general C2 error bound outside the claim.',
     'DESIGN.md §4 C14', TECH)
+CLAIMED['C17'] = (
+    'AxisymmetricVoxel.cross_sectional_area / cross_section_centroid / volume (translated) are executed on polygons with 3-5 '
+    '(6 thorough) fully symbolic vertices: z3 proves area = |fan-triangulation area|, centroid = area-weighted mean of the fan '
+    'triangle centroids, volume = 2 pi c_r A, and invariance under every cyclic rotation and under reversal of the vertex '
+    'list. The constructor is run with raysect geometry stubbed: vertices stored as given or reversed, negative radius and '
+    '< 3 vertices rejected. emissivity_from_function is run on convex polygons with every uniform() draw a fresh symbolic '
+    'u in [0,1): the triangle chosen satisfies cum[t-1] <= u*total < cum[t] (probability area/total), one sample per '
+    'requested sample, constant emissivity returned exactly; VoxelCollection.total_volume is the sum of the voxel volumes.',
+    'raysect winding2d / triangulate2d / find_index / point_triangle / uniform are models or stubs; CSG construction and '
+    'uniformity inside a triangle are outside the claim.',
+    'DESIGN.md §4 C17', TECH)
 NOT_YET = {}
 props = [json.loads(l) for l in open(os.path.join(HERE, 'properties.jsonl'))]
 checks, na = [], []
